@@ -168,6 +168,16 @@ fn binary_checks<F: FpAccess>(ctx: &mut Ctx, fm: &Fm, ops: &[Vec<u64>], tag: &st
         loc.check_at("add", fm.is(&r1, &want) && r1 == r2 && r1 == r3 && r1 == r4, || {
             format!("{}: {} + {} -> {} want {want}", fm.name, fm.show(&a), fm.show(&b), fm.show(&r1))
         });
+        // the remaining operator impls (each is a separate impl block in the library): Fp + &Fp, Fp + &mut Fp, += &mut Fp;
+        // they must return what `a + b` returns (which the site above compares with the model)
+        let mut bm = b;
+        let v1 = a + &b;
+        let v2 = a + &mut bm;
+        let mut v3 = a;
+        v3 += &mut bm;
+        loc.check_at("add_variants", v1 == r1 && v2 == r1 && v3 == r1, || {
+            format!("{}: {} + {} (a + &b, a + &mut b, a += &mut b) -> {} / {} / {} want {want}", fm.name, fm.show(&a), fm.show(&b), fm.show(&v1), fm.show(&v2), fm.show(&v3))
+        });
         // --- sub
         loc.class_if(ra < rb, "sub:borrow");
         let want = modsub(da, db, p);
@@ -178,6 +188,15 @@ fn binary_checks<F: FpAccess>(ctx: &mut Ctx, fm: &Fm, ops: &[Vec<u64>], tag: &st
         loc.check_at("sub", fm.is(&r1, &want) && r1 == r2 && r1 == r3, || {
             format!("{}: {} - {} -> {} want {want}", fm.name, fm.show(&a), fm.show(&b), fm.show(&r1))
         });
+        let v1 = a - &b;
+        let v2 = a - &mut bm;
+        let mut v3 = a;
+        v3 -= b;
+        let mut v4 = a;
+        v4 -= &mut bm;
+        loc.check_at("sub_variants", v1 == r1 && v2 == r1 && v3 == r1 && v4 == r1, || {
+            format!("{}: {} - {} (a - &b, a - &mut b, a -= b, a -= &mut b) -> {} / {} / {} / {} want {want}", fm.name, fm.show(&a), fm.show(&b), fm.show(&v1), fm.show(&v2), fm.show(&v3), fm.show(&v4))
+        });
         // --- mul
         if fm.no_carry_runtime {
             loc.class("mul:no_carry_path");
@@ -186,6 +205,7 @@ fn binary_checks<F: FpAccess>(ctx: &mut Ctx, fm: &Fm, ops: &[Vec<u64>], tag: &st
         }
         if !fm.spare_bit && fm.cios_t(ra, rb) >= fm.two64n {
             loc.class("mul:final_sub_with_carry");
+            loc.class(if fm.n == 1 { "mul:final_sub_with_carry:N=1" } else { "mul:final_sub_with_carry:N>=2" });
         }
         let want = (da * db) % p;
         let r1 = a * b;
@@ -194,6 +214,15 @@ fn binary_checks<F: FpAccess>(ctx: &mut Ctx, fm: &Fm, ops: &[Vec<u64>], tag: &st
         let r3 = a.ref_mul(&b);
         loc.check_at("mul", fm.is(&r1, &want) && r1 == r2 && r1 == r3, || {
             format!("{}: {} * {} -> {} want {want}", fm.name, fm.show(&a), fm.show(&b), fm.show(&r1))
+        });
+        let v1 = a * &b;
+        let v2 = a * &mut bm;
+        let mut v3 = a;
+        v3 *= b;
+        let mut v4 = a;
+        v4 *= &mut bm;
+        loc.check_at("mul_variants", v1 == r1 && v2 == r1 && v3 == r1 && v4 == r1, || {
+            format!("{}: {} * {} (a * &b, a * &mut b, a *= b, a *= &mut b) -> {} / {} / {} / {} want {want}", fm.name, fm.show(&a), fm.show(&b), fm.show(&v1), fm.show(&v2), fm.show(&v3), fm.show(&v4))
         });
         // --- div
         if !db.is_zero() {
@@ -205,7 +234,27 @@ fn binary_checks<F: FpAccess>(ctx: &mut Ctx, fm: &Fm, ops: &[Vec<u64>], tag: &st
             loc.check_at("div", fm.is(&r1, &want) && r1 == r2 && r1 == r3, || {
                 format!("{}: {} / {} -> {} want {want}", fm.name, fm.show(&a), fm.show(&b), fm.show(&r1))
             });
+            // (division by zero is documented to panic: nothing is demanded there)
+            let v1 = a / &b;
+            let v2 = a / &mut bm;
+            let mut v3 = a;
+            v3 /= b;
+            let mut v4 = a;
+            v4 /= &mut bm;
+            loc.check_at("div_variants", v1 == r1 && v2 == r1 && v3 == r1 && v4 == r1, || {
+                format!("{}: {} / {} (a / &b, a / &mut b, a /= b, a /= &mut b) -> {} / {} / {} / {} want {want}", fm.name, fm.show(&a), fm.show(&b), fm.show(&v1), fm.show(&v2), fm.show(&v3), fm.show(&v4))
+            });
         }
+        // --- Sum / Product over owned and borrowed items: [a, b, a]
+        let want_s = (da + db + da) % p;
+        let want_p = (da * db * da) % p;
+        let s1: F = [a, b, a].into_iter().sum();
+        let s2: F = [a, b, a].iter().sum();
+        let p1: F = [a, b, a].into_iter().product();
+        let p2: F = [a, b, a].iter().product();
+        loc.check_at("sum_product_iter", fm.is(&s1, &want_s) && s2 == s1 && fm.is(&p1, &want_p) && p2 == p1, || {
+            format!("{}: Sum/Product of [a, b, a] (owned / borrowed), a={} b={} -> sum {} / {} want {want_s}, product {} / {} want {want_p}", fm.name, fm.show(&a), fm.show(&b), fm.show(&s1), fm.show(&s2), fm.show(&p1), fm.show(&p2))
+        });
         // --- sum_of_products M=2 with (a,b),(b,a) and M=1
         let want = (da * db * 2u32) % p;
         let r = F::sum_of_products(&[a, b], &[b, a]);
@@ -287,6 +336,7 @@ fn unary_checks<F: FpAccess>(ctx: &mut Ctx, fm: &Fm, ops: &[Vec<u64>]) {
         vec![],
     ];
     exps.dedup();
+    let table_len = exps.iter().map(|e| from_limbs(e).bits() as usize).max().unwrap_or(0);
     ctx.sweep(&format!("unary/{}", fm.name), ops.len() as u64, |i, loc| {
         let l = &ops[i as usize];
         let a = F::from_raw(l);
@@ -312,6 +362,7 @@ fn unary_checks<F: FpAccess>(ctx: &mut Ctx, fm: &Fm, ops: &[Vec<u64>]) {
         loc.class_if(n == 1, "square:N1_path");
         if !fm.spare_bit && fm.cios_t(&ra, &ra) >= fm.two64n {
             loc.class("square:final_sub_with_carry");
+            loc.class(if n == 1 { "square:final_sub_with_carry:N=1" } else { "square:final_sub_with_carry:N>=2" });
         }
         let want = (&da * &da) % p;
         let r = a.square();
@@ -333,12 +384,32 @@ fn unary_checks<F: FpAccess>(ctx: &mut Ctx, fm: &Fm, ops: &[Vec<u64>]) {
             });
         }
         // pow
+        let mut table: Vec<F> = Vec::with_capacity(table_len);
+        let mut sq = da.clone();
+        for _ in 0..table_len {
+            table.push(fm.enc::<F>(&sq));
+            sq = (&sq * &sq) % p;
+        }
         for e in &exps {
             let eb = from_limbs(e);
             loc.class_if(e.len() > 1 && *e.last().unwrap() == 0, "pow:leading_zero_limb");
             let want = da.modpow(&eb, p);
             let r = a.pow(e);
             loc.check_at("pow", fm.is(&r, &want), || format!("{}: {} ^ {e:x?} -> {} want {want}", fm.name, fm.show(&a), fm.show(&r)));
+            // pow_with_table over the model's table [a, a^2, a^4, ...] (as many entries as the exponent has bits)
+            let nb = eb.bits() as usize;
+            let r = F::pow_with_table(&table[..nb], e);
+            loc.check_at("pow_with_table", r.map(|r| fm.is(&r, &want)).unwrap_or(false), || {
+                format!("{}: pow_with_table([a^(2^i); {nb}], {e:x?}), a={} -> {:?} want {want}", fm.name, fm.show(&a), r.map(|r| fm.show(&r)))
+            });
+            if nb > 0 {
+                // the top power is missing: documented to be None; a right value is accepted too, a wrong one never
+                loc.class("pow_with_table:missing_power");
+                let r = F::pow_with_table(&table[..nb - 1], e);
+                loc.check_at("pow_with_table", r.map(|r| fm.is(&r, &want)).unwrap_or(true), || {
+                    format!("{}: pow_with_table(table one entry short, {e:x?}), a={} -> {:?}, neither None nor {want}", fm.name, fm.show(&a), r.map(|r| fm.show(&r)))
+                });
+            }
         }
         // into_bigint / from_bigint
         let bi = a.into_bigint();
@@ -355,7 +426,7 @@ fn unary_checks<F: FpAccess>(ctx: &mut Ctx, fm: &Fm, ops: &[Vec<u64>]) {
         loc.check_at("predicates", a.is_zero() == da.is_zero() && a.is_one() == da.is_one(), || format!("{}: is_zero/is_one on {}", fm.name, fm.show(&a)));
         let mut f = a;
         f.frobenius_map_in_place(1);
-        loc.check_at("frobenius", f == a, || format!("{}: frobenius changed {}", fm.name, fm.show(&a)));
+        loc.check_at("frobenius", f == a && (0..3).all(|k| a.frobenius_map(k) == a), || format!("{}: frobenius changed {}", fm.name, fm.show(&a)));
         // single-element sop, sum, product
         let r = F::sum_of_products(&[a], &[a]);
         loc.check_at("sum_of_products", fm.is(&r, &((&da * &da) % p)), || format!("{}: sop1 {} -> {}", fm.name, fm.show(&a), fm.show(&r)));
@@ -376,6 +447,9 @@ fn sop_m<F: FpAccess, const M: usize>(loc: &mut Loc, fm: &Fm, av: &[F], dv: &[Bi
     }
     want %= &fm.p;
     let chunk = if fm.bits >= 64 * fm.n - 1 { 0 } else { 2 * (fm.n * 64 - fm.bits) - 1 };
+    loc.class_if(M == 0, "sop:M=0");
+    loc.class_if(chunk != 0 && M == chunk, "sop:M=chunk_exactly");
+    loc.class_if(chunk != 0 && M == chunk + 1, "sop:M=chunk+1");
     if chunk == 0 {
         loc.class("sop:fallback");
     } else if M == 2 {
@@ -411,28 +485,73 @@ fn sop_checks<F: FpAccess>(ctx: &mut Ctx, fm: &Fm) {
         });
     }
     // larger M: deviation <= 1 (pairs position,value) over base patterns
-    let bases: [(usize, usize); 4] = [(2, 2), (1, 1), (2, 4), (4, 2)];
     macro_rules! big_m {
         ($($M:expr),*) => {$(
-            {
-                const M: usize = $M;
-                // cases: base x (no deviation | position x side x value)
-                let per_base = 1 + M as u64 * 2 * 6;
-                ctx.sweep(&format!("sop_dev1/{}/M={}", fm.name, M), 4 * per_base, |i, loc| {
-                    let [ib, r] = unrank(i, [4, per_base]);
-                    let (ba, bb) = bases[ib as usize];
-                    let mut ia = vec![ba; M];
-                    let mut ibv = vec![bb; M];
-                    if r > 0 {
-                        let [pos, side, val] = unrank(r - 1, [M as u64, 2, 6]);
-                        if side == 0 { ia[pos as usize] = val as usize } else { ibv[pos as usize] = val as usize }
-                    }
-                    sop_m::<F, M>(loc, fm, &av, &vals, &ia, &ibv);
-                });
-            }
+            sop_dev1::<F, $M>(ctx, fm, &av, &vals, "sop_dev1");
         )*};
     }
     big_m!(4, 5, 6, 7, 8, 11, 12, 16, 33, 200, 230);
+}
+const SOP_BIG_M: [usize; 11] = [4, 5, 6, 7, 8, 11, 12, 16, 33, 200, 230];
+
+/// cases: base pattern x (no deviation | position x side x value); M = 0 has the single case of two empty arrays
+fn sop_dev1_cases<const M: usize>() -> u64 {
+    if M == 0 {
+        1
+    } else {
+        4 * (1 + M as u64 * 2 * 6)
+    }
+}
+const SOP_BASES: [(usize, usize); 4] = [(2, 2), (1, 1), (2, 4), (4, 2)];
+fn sop_dev1_case<F: FpAccess, const M: usize>(loc: &mut Loc, fm: &Fm, av: &[F], vals: &[BigUint], i: u64) {
+    let per_base = 1 + M as u64 * 2 * 6;
+    let [ib, r] = unrank(i, [4, per_base]);
+    let (ba, bb) = SOP_BASES[ib as usize];
+    let mut ia = vec![ba; M];
+    let mut ibv = vec![bb; M];
+    if r > 0 {
+        let [pos, side, val] = unrank(r - 1, [M as u64, 2, 6]);
+        if side == 0 {
+            ia[pos as usize] = val as usize
+        } else {
+            ibv[pos as usize] = val as usize
+        }
+    }
+    sop_m::<F, M>(loc, fm, av, vals, &ia, &ibv);
+}
+fn sop_dev1<F: FpAccess, const M: usize>(ctx: &mut Ctx, fm: &Fm, av: &[F], vals: &[BigUint], sweep: &str) {
+    ctx.sweep(&format!("{sweep}/{}/M={}", fm.name, M), sop_dev1_cases::<M>(), |i, loc| sop_dev1_case::<F, M>(loc, fm, av, vals, i));
+}
+
+/// the chunk size of the library's sum_of_products for a modulus of `bits` bits in `n` limbs (0: no chunking, plain fallback)
+const fn sop_chunk(n: usize, bits: usize) -> usize {
+    if bits >= 64 * n - 1 {
+        0
+    } else {
+        2 * (n * 64 - bits) - 1
+    }
+}
+
+/// M = 0, M = the chunk size exactly and M = chunk size + 1 in ONE sweep per field (C and C1 are computed per field at
+/// the call site, from the field's own constants; the class labels in `sop_m` come from the model's bit length);
+/// lengths already swept by sop_all / sop_dev1 are not visited twice
+fn sop_chunk_edges<F: FpAccess, const C: usize, const C1: usize>(ctx: &mut Ctx, name: &str) {
+    let fm = Fm::new::<F>(name);
+    let p = &fm.p;
+    let vals: Vec<BigUint> = vec![BigUint::zero(), BigUint::one(), p - 1u32, (p - 1u32) >> 1usize, BigUint::from(GENERIC64) % p, fm.mont.r.clone()];
+    let av: Vec<F> = vals.iter().map(|v| fm.enc::<F>(v)).collect();
+    let n0 = sop_dev1_cases::<0>();
+    let nc = if C > 3 && !SOP_BIG_M.contains(&C) { sop_dev1_cases::<C>() } else { 0 };
+    let nc1 = if C > 3 && !SOP_BIG_M.contains(&C1) { sop_dev1_cases::<C1>() } else { 0 };
+    ctx.sweep(&format!("sop_edge/{}/M=0,{C},{C1}", fm.name), n0 + nc + nc1, |i, loc| {
+        if i < n0 {
+            sop_dev1_case::<F, 0>(loc, &fm, &av, &vals, i)
+        } else if i < n0 + nc {
+            sop_dev1_case::<F, C>(loc, &fm, &av, &vals, i - n0)
+        } else {
+            sop_dev1_case::<F, C1>(loc, &fm, &av, &vals, i - n0 - nc)
+        }
+    });
 }
 
 fn batch_inv_checks<F: FpAccess>(ctx: &mut Ctx, fm: &Fm) {
@@ -532,9 +651,15 @@ fn conversion_checks<F: FpAccess>(ctx: &mut Ctx, fm: &Fm, all_short_bytes: bool)
                 let r = F::from_str(&s).ok();
                 let want = modneg(&want, p);
                 loc.class("from_str:negative");
-                loc.check_at("from_str", r.map(|r| fm.is(&r, &want)).unwrap_or(false), || format!("{name}: FromStr({s}) -> {:?} want {want}", r.map(|r| fm.show(&r))));
+                // a leading minus sign is not promised by the rustdoc ("a string of numbers"): rejection or p - v, never another value
+                loc.class_if(r.is_some(), "observed:from_str_negative_accepted");
+                loc.check_at("from_str", r.map(|r| fm.is(&r, &want)).unwrap_or(true), || format!("{name}: FromStr({s}) -> {:?}, neither rejected nor {want}", r.map(|r| fm.show(&r))));
             }
         }
+        // Sum / Product of nothing
+        let (es, ep): (F, F) = (Vec::<F>::new().into_iter().sum(), Vec::<F>::new().into_iter().product());
+        let (es2, ep2): (F, F) = (Vec::<F>::new().iter().sum(), Vec::<F>::new().iter().product());
+        loc.check_at("sum_product_iter", fm.is(&es, &BigUint::zero()) && es2 == es && fm.is(&ep, &(BigUint::one() % p)) && ep2 == ep, || format!("{name}: empty Sum / Product -> {} / {}", fm.show(&es), fm.show(&ep)));
         loc.check_at("from_str", F::from_str("").is_err() && F::from_str("x").is_err() && F::from_str("1x").is_err(), || format!("{name}: FromStr accepts garbage"));
         // characteristic
         loc.check_at("characteristic", from_limbs(F::characteristic()) == *p && F::MODULUS_BIT_SIZE as usize == fm.bits, || format!("{name}: characteristic / MODULUS_BIT_SIZE"));
@@ -703,10 +828,10 @@ fn tiny_universe<F: FpAccess>(ctx: &mut Ctx, name: &str, seen: &Mutex<BTreeSet<S
     conversion_checks::<F>(ctx, &fm, ctx.thorough() || pu <= 17);
 }
 
-fn alphabet_field<F: FpAccess>(ctx: &mut Ctx, name: &str, seen: &Mutex<BTreeSet<String>>, dedupe: bool) {
+fn alphabet_field<F: FpAccess>(ctx: &mut Ctx, name: &str, seen: &Mutex<BTreeSet<String>>, dedupe: bool) -> bool {
     let fm = Fm::new::<F>(name);
     if dedupe && !seen.lock().unwrap().insert(fm.p.to_str_radix(16)) {
-        return; // same modulus re-exported under another name
+        return false; // same modulus re-exported under another name
     }
     let dev = if ctx.quick() && fm.n >= 3 { 1 } else { 2 };
     let ops = operands(&fm, dev);
@@ -715,21 +840,33 @@ fn alphabet_field<F: FpAccess>(ctx: &mut Ctx, name: &str, seen: &Mutex<BTreeSet<
     sop_checks::<F>(ctx, &fm);
     batch_inv_checks::<F>(ctx, &fm);
     conversion_checks::<F>(ctx, &fm, false);
+    true
 }
 
+/// sum_of_products lengths at the field's own chunk boundary (const generics: computed per concrete field type)
+macro_rules! sop_edges {
+    ($F:ty, $name:expr, $ctx:expr) => {{
+        const C: usize = sop_chunk(<$F as FpAccess>::NLIMBS, <$F as PrimeField>::MODULUS_BIT_SIZE as usize);
+        sop_chunk_edges::<$F, C, { C + 1 }>($ctx, $name);
+    }};
+}
 macro_rules! tiny {
     ($F:ty, $n:expr, $name:expr, $ctx:expr, $seen:expr) => {
         tiny_universe::<$F>($ctx, $name, $seen);
+        sop_edges!($F, $name, $ctx);
     };
 }
 macro_rules! big {
     ($F:ty, $n:expr, $name:expr, $ctx:expr, $seen:expr) => {
         alphabet_field::<$F>($ctx, $name, $seen, false);
+        sop_edges!($F, $name, $ctx);
     };
 }
 macro_rules! shipped {
     ($F:ty, $name:expr, $ctx:expr, $seen:expr) => {
-        alphabet_field::<$F>($ctx, $name, $seen, true);
+        if alphabet_field::<$F>($ctx, $name, $seen, true) {
+            sop_edges!($F, $name, $ctx);
+        }
     };
 }
 
@@ -747,6 +884,14 @@ fn main() {
         "square:final_sub_with_carry",
         "inverse:b_halving_with_carry",
         "sop:chunked",
+        "sop:M=0",
+        "sop:M=chunk_exactly",
+        "sop:M=chunk+1",
+        "mul:final_sub_with_carry:N=1",
+        "mul:final_sub_with_carry:N>=2",
+        "square:final_sub_with_carry:N=1",
+        "square:final_sub_with_carry:N>=2",
+        "pow_with_table:missing_power",
         "sop:fallback",
         "sop:M2_path",
         "from_bytes:longer_than_modulus",
@@ -756,6 +901,8 @@ fn main() {
     ctx.assume("oracle: num-bigint modular arithmetic; results are observed as raw Montgomery limbs decoded with limbs*R^-1 mod p computed by the oracle, never through the library's into_bigint");
     ctx.bound("tiny_universe", "all p^2 ordered pairs for p<=257; all elements (unary) and stride-subset pairs for larger tiny p");
     ctx.bound("alphabet", "raw Montgomery limbs: deviation<=2 (quick: <=1 for N>=3) over bases {0..0, f..f, p, p-1} with L10 (N<=3) / L4+generic (N<=8) / {0,1,max} (N>=9), top-limb extras around p's top limb, canonical integers; all ordered pairs");
+    ctx.bound("sum_of_products_lengths", "M<=3: all tuples over a 6-value alphabet; M in {4,5,6,7,8,11,12,16,33,200,230} and, per field, M = 0, M = chunk size and M = chunk size + 1 of that field: deviation<=1 over 4 base patterns");
+    ctx.bound("operator_impls", "every pair goes through a op b, a op &b, &a op &b, a op &mut b, a op= b, a op= &b, a op= &mut b for op in + - * /, and Sum/Product over owned and borrowed items");
     let seen = Mutex::new(BTreeSet::new());
     algebra_mc::tiny_fields_derived!(tiny, &mut ctx, &seen);
     algebra_mc::tiny_fields_hand!(tiny, &mut ctx, &seen);
